@@ -36,6 +36,7 @@ ASSEMBLY = 'forml.flow._suite.assembly'
 SPAN = 'forml.flow._graph.span'
 WRAP = 'forml.pipeline.wrap._operator'
 GENERIC = 'forml.pipeline.payload._generic'
+STACK = 'forml.pipeline.ensemble._stacking'
 DEBUG = 'forml.pipeline.payload._debug'
 STAGE = 'forml.evaluation._stage'
 EXTRACT = 'forml.io._input.extract'
@@ -45,6 +46,17 @@ COMMIT = 'forml.io._output.commit'
 NO_TWIN_OK = {
     f'{DEBUG}:Dump.compose': 'the train-mode dumper only writes the train set to a file; it exports no state',
     f'{DEBUG}:Sniff.compose': 'the train-mode captor only captures the train set; it exports no state',
+}
+
+
+# operator -> {builder expression of a trained worker group: number of trainer sites} (confirmed by reading; a deleted trainer
+# is a violation, a *new* trained group is judged by T1/T3 as before)
+TRAINED = {
+    f'{STACK}:Ensembler.compose': {'self._splitter': 1},
+    f'{DEBUG}:Dump.compose': {'self._train(self._instances)': 1},
+    f'{DEBUG}:Sniff.compose': {'self.Captor.builder(self._client)': 1},
+    f'{GENERIC}:MapReduce.compose': {'mapper': 1},
+    f'{WRAP}:Operator.compose': {'builder.update(*self._args, **self._kwargs)': 3},
 }
 
 
@@ -189,6 +201,14 @@ def operators(ctx) -> None:
                             modes = {r.mode for r in rs if r.mode}
                             if modes:
                                 ctx.check(modes == {want} or (want == LABEL and modes <= {LABEL, TRAIN}), 'C03.T2', fn, f'the tail closing the {mode} segment is fed {sorted(modes)} data', x.node, key=f'T2:{mode}:tail')
+        # T6: the trainers confirmed on the pinned tree are still there (a stateful actor without its trainer fork keeps
+        # serving an untrained / stale state; with the trainer gone no other rule has an event to look at)
+        have = {}
+        for e in [e for e in events if e.kind == 'train']:
+            b = e.data['worker'].group.builder
+            have[b] = have.get(b, 0) + 1
+        for b, cnt in TRAINED.get(fn.ref, {}).items():
+            ctx.check(have.get(b, 0) >= cnt, 'C03.T6', fn, f'the worker group built from `{b}` is trained ({have.get(b, 0)} trainer site(s), {cnt} confirmed on the pinned tree)', fn.node, key=f'T6:{b}')
         # T5: no dangling input - a worker whose output is consumed (or that is handed to extend/use/Trunk) has every input fed
         nconn += connected(ctx, fn, it, R)
         # sharing: a segment of an expanded trunk is subscribed at most once
